@@ -12,10 +12,11 @@
 
    Full statement of the property (DESIGN 5.16):
      cancel_truncates          PROVED below (C16_cancel_truncates + C16_cancel_deepest + C16_cancel_no_move).
-     cancel_preserves_engine   "after a cancelled search the same engine still gives correct results": NOT proved; it is C05's table
-                               validity (tt_valid_preserved) in the state left by analyze_cancel.  It is tested on every run: the two
-                               further searches on the cancelled engine are judged by the exhaustive-negamax / forced-result oracles
-                               and replayed by the model.
+     cancel_preserves_engine   PROVED (C16_cancel_preserves_engine, abstract: C16_cancel_preserves_engine_abstract; block at the end) under
+                               the hypotheses of C05's table clause (precise configurations, NoCollision on the touched set): the state
+                               left by a call cancelled inside ANY leaf evaluation satisfies the table invariant and SJ again, and
+                               every later call on it (cancelled or not) reports right forced-result verdicts.  For other
+                               configurations it is tested on every run (exhaustive-negamax / forced-result oracles, model replay).
      data-race freedom         not expressible as a theorem about this model (Go memory model); -race run = supporting evidence. *)
 From Coq Require Import NArith ZArith List Bool.
 Require Import Board Move GameOver Eval Search SearchC CancelFacts CancelEx.
@@ -56,3 +57,29 @@ Theorem C16_cancel_nonvacuous :
      analyze_cancel Generated.Consts.gen_basis cfg_ex 5 (new_state 0) start3 = (sk, (pv, v, 0, acc, true))).
 Proof. exact cancel_nonvacuous. Qed.
 Print Assumptions C16_cancel_nonvacuous.
+
+
+Require Import EvalSpec NegamaxSpec SearchGen SearchExact SearchInst SearchNeg2 SearchNeg5 SearchLegal2 SearchTable1 SearchTable2 SearchTable3 SearchTable4 SearchTable5 SearchTableThms SearchTableEx.
+Require Import Generated.Consts.
+
+(* ---------------- C16 ---------------- *)
+
+(* cancel_preserves_engine on the instantiated model: the state left by a call cancelled inside ANY leaf evaluation (k = 0: never) is an
+   engine state again - SJ and the table invariant hold - and every later call on it reports right verdicts *)
+Theorem C16_cancel_preserves_engine : forall U, touch_set U ->
+  forall s cfg k p sk r, engine_inst U s -> precise cfg -> builtin_eval cfg -> ask_ok cfg U p ->
+  analyze_cancel gen_basis cfg k s p = (sk, r) ->
+  engine_inst U sk /\ SJ sk /\ tt_valid gen_basis (PosT U 0%nat) sk /\
+  forall cfg' k' p' sk' pv v d acc c, precise cfg' -> builtin_eval cfg' -> ask_ok cfg' U p' ->
+    analyze_cancel gen_basis cfg' k' sk p' = (sk', (pv, v, d, acc, c)) -> 0 < d -> verdict_ok gen_basis p' v d.
+Proof. exact table_cancel_preserves_engine_inst. Qed.
+Print Assumptions C16_cancel_preserves_engine.
+
+Theorem C16_cancel_preserves_engine_abstract : forall basis Pos, table_facts basis Pos ->
+  forall s cfg k p sk r, engine basis Pos s -> precise cfg -> eval_facts cfg Pos -> call_ok cfg Pos p ->
+  analyze_cancel basis cfg k s p = (sk, r) ->
+  engine basis Pos sk /\ SJ sk /\ tt_valid basis (Pos 0%nat) sk /\
+  forall cfg' k' p' sk' pv v d acc c, precise cfg' -> eval_facts cfg' Pos -> call_ok cfg' Pos p' ->
+    analyze_cancel basis cfg' k' sk p' = (sk', (pv, v, d, acc, c)) -> 0 < d -> verdict_ok basis p' v d.
+Proof. exact table_cancel_preserves_engine. Qed.
+Print Assumptions C16_cancel_preserves_engine_abstract.
